@@ -600,3 +600,91 @@ func isMethodCallNamed(name string, recvOK func(types.Type) bool) func(ssa.Instr
 		return recvOK == nil || recvOK(sig.Recv().Type())
 	}
 }
+
+// edgePoints returns the entry points of the successor blocks reached through
+// branch edges matched by e (in fn and its closures).
+func edgePoints(fn *ssa.Function, e Barrier) []Point {
+	var out []Point
+	if e.Edge == nil {
+		return nil
+	}
+	for _, f := range WithAnons(fn) {
+		for _, b := range f.Blocks {
+			if len(b.Instrs) == 0 {
+				continue
+			}
+			iff, ok := b.Instrs[len(b.Instrs)-1].(*ssa.If)
+			if !ok {
+				continue
+			}
+			if m, which := e.Edge(condOf(iff)); m {
+				out = append(out, Point{b.Succs[which], 0})
+			}
+		}
+	}
+	return out
+}
+
+// AfterEdge (E2 variant): on every path that follows an edge matched by
+// `edge`, no instruction matching target is reached without crossing bars.
+func (c *Ctx) AfterEdge(rule string, fn *ssa.Function, what string, edge Barrier, target func(ssa.Instruction) bool, bars ...Barrier) int {
+	if fn == nil {
+		c.unresolved(rule, what, "function not found")
+		return 0
+	}
+	pts := edgePoints(fn, edge)
+	var bn []string
+	for _, b := range bars {
+		bn = append(bn, b.Name)
+	}
+	key := fmt.Sprintf("%s|%s|%s|after %s", rule, fnKey(fn), what, edge.Name)
+	if len(pts) == 0 {
+		c.unresolved(rule, fmt.Sprintf("%s|%s|after %s", fnKey(fn), what, edge.Name), "no branch edge matches (rule would pass vacuously)")
+		return 0
+	}
+	for _, pt := range pts {
+		r := reach([]Point{pt}, bars, nil)
+		bad := false
+		for _, t := range r.order {
+			if target(t) {
+				bad = true
+				c.violation(rule, key, instrPos(t), fmt.Sprintf("%s: after edge %s (block at %s) reaches %s without crossing {%s}; path %s", what, edge.Name, c.P.pos(instrPos(pt.B.Instrs[0])), c.P.pos(instrPos(t)), strings.Join(bn, " | "), c.trail(r, t)))
+				break
+			}
+		}
+		if !bad {
+			c.ok(rule, key, instrPos(pt.B.Instrs[0]), fmt.Sprintf("%s: after edge %s nothing forbidden is reachable without {%s}", what, edge.Name, strings.Join(bn, " | ")))
+		}
+	}
+	return len(pts)
+}
+
+// ReturnsConst: fn has only returns whose result #idx is the given constant.
+func (c *Ctx) ReturnsConst(rule string, fn *ssa.Function, idx int, want Pat, wantDesc string) {
+	if fn == nil {
+		c.unresolved(rule, "ReturnsConst", "function not found")
+		return
+	}
+	key := fmt.Sprintf("%s|%s|returns %s", rule, fnKey(fn), wantDesc)
+	n := 0
+	for _, b := range fn.Blocks {
+		for _, in := range b.Instrs {
+			r, ok := in.(*ssa.Return)
+			if !ok || idx >= len(r.Results) {
+				continue
+			}
+			n++
+			for _, l := range Origins(Desc(r.Results[idx]), nil) {
+				if !want(l) {
+					c.violation(rule, key, instrPos(in), fmt.Sprintf("%s may return %s, want %s", fnKey(fn), l.String(), wantDesc))
+					return
+				}
+			}
+		}
+	}
+	if n == 0 {
+		c.unresolved(rule, key, "no return found")
+		return
+	}
+	c.ok(rule, key, fn.Pos(), fmt.Sprintf("%s returns %s on every path", fnKey(fn), wantDesc))
+}
